@@ -8,6 +8,7 @@ import contextlib
 import io
 import itertools
 import os
+import sys
 
 from harness.core import enc_str, dec_str
 
@@ -20,7 +21,7 @@ THEOREMS = [
     "C19.options_iff", "C19.strings_iff", "C19.added_to_all", "C19.add_ok_iff",
     "C19.command_dispatch", "C19.parse_accepts", "C19.parse_rejects", "C19.parse_rejects_short",
     "C19.abbrev_unique", "C19.abbrev_ambiguous", "C19.accepts_iff", "C19.std_accepted",
-    "C19.verbose_cluster", "C19.dd_words",
+    "C19.verbose_cluster", "C19.dd_words", "C19.required_enforced",
     "C19.default_is_first_public", "C19.default_cmd_partial", "C19.default_cmd_full_if_public_test",
     "C19.internal_name_gap",
     "C19.parse_twice", "C19.no_log_file_attr", "C19.help_if_no_args", "C19.single_mode",
@@ -32,13 +33,16 @@ RULE = ("one case = one ArgParser: declarations (chains, forests, diamonds, dens
         "prefixes / contain '-', '_', digits, upper case / are pieces of '-h--help'; blanks of 13 kinds and empty pieces in the "
         "parent list; malformed: unknown/forward/self parents, duplicate and empty names, no commands, all internal, bad "
         "default), constructor switches _no_log/_no_log_file/_help_if_no_args, 0-8 add_argument calls (ArgParser itself, public "
-        "and internal parsers, unknown command; flags, store_false, store_const, value options, explicit dest=, families of "
+        "and internal parsers, unknown command; flags, store_false, store_const, value options (also with a default string or a "
+        "default object, sys.stdout), required=True options on the ArgParser / parsers / internal sets with argv that supplies "
+        "them or not, explicit dest=, families of "
         "options storing into one attribute placed on one parser / parent and child / ArgParser and parser, positionals with "
         "nargs absent/?/*/+; option strings that "
         "are prefixes of each other and of the standard ones; a stream with conflicting strings; a stream where the default "
         "command takes free words), then argv per (public command, option string) plus random argv (abbreviations, -xyz "
         "clusters with attached values, --opt=value, --, '', '-', negative numbers, std options and their abbreviations, "
         "unknown options, no command name, first words inside '-h--help', -h), 15% of them parsed twice from the same list "
+        "object, 12% also through parse_args() with sys.argv set, "
         "object; the single-command ArgParser (6%); cases with an internal name first (known finding); every strip() "
         "candidate character. non-trivial = a successfully built multi-command parser with >= 1 parent edge, >= 1 option "
         "added to a command parser and >= 2 parse lines; distinct by protocol text")
@@ -217,6 +221,8 @@ def _show_val(v):
         return "N"
     if isinstance(v, str):
         return "s:" + enc_str(v)
+    if v is sys.stdout or v is sys.__stdout__ or hasattr(v, "write"):
+        return "s:" + enc_str(OBJ)
     if isinstance(v, int):
         return "n:%d" % v
     if isinstance(v, list):
@@ -234,7 +240,14 @@ POS_KW = {"pos1": {}, "pos?": {"nargs": "?"}, "pos*": {"nargs": "*"}, "pos+": {"
 def _kind_parts(kind):
     """'flag@cache' -> ('flag', 'cache'); 'const=106,115@102,109,116' -> ('const=106,115', 'fmt'); dest None when absent"""
     base, _, d = kind.partition("@")
-    return base, (dec_str(d) if d else None)
+    return base.rstrip("!"), (dec_str(d) if d else None)
+
+
+def _required(kind):
+    return kind.partition("@")[0].endswith("!")
+
+
+OBJ = "<obj>"          # stands for a default that is an object (sys.stdout), not a value
 
 
 def _opt_kwargs(kind):
@@ -247,10 +260,15 @@ def _opt_kwargs(kind):
         kw = {"action": "store_false"}
     elif base.startswith("const="):
         kw = {"action": "store_const", "const": dec_str(base[6:])}
+    elif base.startswith("value="):
+        d = dec_str(base[6:])
+        kw = {"default": sys.stdout if d == OBJ else d}
     else:
         kw = {}
     if dest is not None:
         kw["dest"] = dest
+    if _required(kind):
+        kw["required"] = True
     return kw
 
 
@@ -321,6 +339,22 @@ class _Session:
                 return "err " + type(e).__name__
         if op == "parse":
             return self.parse([dec_str(a) for a in args])
+        if op == "parsev":
+            # the documented way to run a script: parse_args() reads sys.argv
+            old = sys.argv
+            sys.argv = ["x"] + [_fresh(dec_str(a)) for a in args]
+            try:
+                err, out = io.StringIO(), io.StringIO()
+                try:
+                    with contextlib.redirect_stderr(err), contextlib.redirect_stdout(out):
+                        ns = self.p.parse_args()
+                    return "ok " + _show_ns(ns)
+                except SystemExit as e:
+                    return "err SystemExit %s" % (e.code,)
+                except Exception as e:
+                    return "err " + type(e).__name__
+            finally:
+                sys.argv = old
         if op == "parse2":
             lst = [_fresh(dec_str(a)) for a in args]
             r1 = self.parse_list(lst)
@@ -403,7 +437,13 @@ def _std_specs(no_log):
 
 
 def _base(kind):
-    return kind.partition("@")[0]
+    b = kind.partition("@")[0].rstrip("!")
+    return "value" if b.startswith("value=") else b
+
+
+def _value_default(kind):
+    b = kind.partition("@")[0].rstrip("!")
+    return dec_str(b[6:]) if b.startswith("value=") else None
 
 
 def _dest(strs, kind):
@@ -462,7 +502,7 @@ def _expect(rest, acc):
         elif b == "flagoff":
             ns.setdefault(d, True)
         elif b == "value" or b.startswith("const="):
-            ns.setdefault(d, None)
+            ns.setdefault(d, _value_default(kind))
         elif b == "count":
             ns.setdefault(d, 0)
         elif b == "color":
@@ -474,6 +514,8 @@ def _expect(rest, acc):
         if _resolve(t, table) == "abbreviation":
             return None
     EXIT = ("exit",)
+    required = [sp for sp in acc if _required(sp[1])]
+    given = []
     color_seen = nocolor_seen = False
     runs, cur = [], None
     after_dd = False
@@ -539,6 +581,7 @@ def _expect(rest, acc):
             return EXIT
         for sp in todo:
             act(sp)
+        given.extend(todo + [spec])
         strs, kind = spec
         d = _dest(strs, kind)
         kind = _base(kind)
@@ -569,6 +612,8 @@ def _expect(rest, acc):
             ns[d] = v
         if color_seen and nocolor_seen:
             return EXIT
+    if any(sp not in given for sp in required):
+        return EXIT                       # a required option of this command was not supplied
     # the words
     if len(runs) > 1 or (runs and not poss):
         return EXIT
@@ -657,7 +702,7 @@ def oracle(case, replies):
                 continue
             for n in recv:
                 has[n].append((strs, kind))
-        elif op in ("parse", "parse2") and alive:
+        elif op in ("parse", "parse2", "parsev") and alive:
             argv = [dec_str(x) for x in a]
             if op == "parse2":
                 parts = rep.split(" | ")
@@ -739,6 +784,11 @@ def _k(base, dest=None, const=None):
 
 
 # options that store into one attribute (store_true/store_false pairs, store_const switches, explicit dest=)
+def _req(kind):
+    b, at, d = kind.partition("@")
+    return b + "!" + at + d
+
+
 FAMILIES = [
     [(_k("flag", "cache"), ["--cache"]), (_k("flagoff", "cache"), ["--no-cache"])],
     [(_k("const", "fmt", "json"), ["--json"]), (_k("const", "fmt", "yaml"), ["-y", "--yaml"]), (_k("value", "fmt"), ["--format"])],
@@ -819,7 +869,12 @@ def _spec(rng):
         strs = [rng.choice(SHORTS), rng.choice(LONGS)]
         if rng.random() < 0.3:
             strs.reverse()
-    return ("flag" if rng.random() < 0.6 else "value"), strs
+    r = rng.random()
+    if r < 0.55:
+        return "flag", strs
+    if r < 0.62:
+        return "value=" + enc_str(rng.choice([OBJ, OBJ, "dflt", ""]) or "d"), strs      # default= an object / a string
+    return "value", strs
 
 
 def _abbrev(rng, s):
@@ -947,6 +1002,18 @@ def _gen_case(rng, tier, stream):
             used |= set(strs)
             placed.append((target, kind, strs))
             lines.append("opt %s %s %s" % (target, kind, " ".join(enc_str(s) for s in strs)))
+    if stream == "required":
+        # required=True options on the ArgParser, on parsers and on internal sets; argv below supplies them or not
+        for _ in range(rng.choice([1, 1, 2])):
+            kind, strs = _spec(rng)
+            if kind.startswith("pos") or any(x in used for x in strs):
+                continue
+            kind = _req("value" if _base(kind) == "value" else rng.choice(["value", kind]))
+            r = rng.random()
+            target = "*" if r < 0.4 else enc_str(rng.choice(internal)) if r < 0.6 and internal else enc_str(rng.choice(names))
+            used |= set(strs)
+            placed.append((target, kind, strs))
+            lines.append("opt %s %s %s" % (target, kind, " ".join(enc_str(s) for s in strs)))
     for _ in range(nopt):
         kind, strs = _spec(rng)
         if stream != "conflict" and not kind.startswith("pos"):
@@ -975,8 +1042,20 @@ def _gen_case(rng, tier, stream):
     rng.shuffle(pairs)
     if stream == "shared-dest":
         pairs.sort(key=lambda x: not any(x[2] in strs for fam in FAMILIES for _, strs in fam))
+    reqs = [(kind, strs) for (_, kind, strs) in placed if _required(kind)]
+
+    def supply():
+        out = []
+        for kind, strs in reqs:
+            out += _use(rng, kind, rng.choice(strs))
+        return out
     for c, kind, s in pairs[: (12 if tier == "quick" else 40)]:
-        argvs.append([c] + _use(rng, kind, s))
+        argvs.append([c] + _use(rng, kind, s) + (supply() if reqs and not _required(kind) and rng.random() < 0.8 else []))
+    if reqs:
+        for c in public[:5]:
+            argvs.append([c] + supply())
+            argvs.append([c])
+        argvs.append(supply())
     for c in public[:4]:
         argvs.append([c] + [rng.choice(STD_TOKS)])
     argvs.append([])
@@ -1029,8 +1108,11 @@ def _gen_case(rng, tier, stream):
             continue
         seen.add(k)
         lines.append(_parse_line(argv, twice=rng.random() < 0.15))
-        if rng.random() < 0.08:
+        r = rng.random()
+        if r < 0.08:
             lines.append(" ".join(["lst"] + [enc_str(t) for t in argv]))
+        elif r < 0.2:
+            lines.append(" ".join(["parsev"] + [enc_str(t) for t in argv]))     # the same vector through sys.argv
     return {"lines": lines, "meta": meta}
 
 
@@ -1080,8 +1162,11 @@ def _gen_single(rng, tier):
         if tuple(argv) not in seen:
             seen.add(tuple(argv))
             lines.append(_parse_line(argv, twice=rng.random() < 0.2))
-            if rng.random() < 0.1:
+            r = rng.random()
+            if r < 0.1:
                 lines.append(" ".join(["lst"] + [enc_str(t) for t in argv]))
+            elif r < 0.25:
+                lines.append(" ".join(["parsev"] + [enc_str(t) for t in argv]))
     return {"lines": lines, "meta": {"kind": "single", "switches": sw}}
 
 
@@ -1175,7 +1260,7 @@ def gen_cases(rng, tier):
         if r < 0.06:
             yield _gen_single(rng, tier)
             continue
-        stream = ("valid" if r < 0.5 else "shared-dest" if r < 0.6 else "free-positional" if r < 0.72
+        stream = ("valid" if r < 0.42 else "required" if r < 0.5 else "shared-dest" if r < 0.6 else "free-positional" if r < 0.72
                   else "conflict" if r < 0.82 else "malformed" if r < 0.97 else "internal-first")
         yield _gen_case(rng, tier, stream)
     if tier != "quick":
@@ -1311,7 +1396,11 @@ def tags(case, replies):
     yield "new:" + replies[0]
     for l, r in zip(case["lines"], replies):
         if l.startswith("opt "):
-            yield "opt:%s:%s" % (l.split()[2].partition("@")[0].partition("=")[0], r)
+            yield "opt:%s:%s" % (l.split()[2].partition("@")[0].partition("=")[0].rstrip("!"), r)
+            if "!" in l.split()[2].partition("@")[0]:
+                yield "opt:required"
+            if l.split()[2].startswith("value="):
+                yield "opt:value-with-default"
         elif l.startswith("parse"):
             first = r.split(" | ")[0]
             yield l.split()[0] + ":" + " ".join(first.split()[:3] if first.startswith("err") else first.split()[:1])
@@ -1334,7 +1423,7 @@ LEVEL_TEXT = ("Kernel-checked for all declaration lists, all histories of add_ar
               "default command = first public command, inserted for every first word that names no parser "
               "(default_is_first_public, default_cmd_partial, command_dispatch); a second parse_args on the list object the "
               "first call modified gives the same result, in both modes (parse_twice); _no_log_file / _help_if_no_args "
-              "(no_log_file_attr, help_if_no_args); the single-command ArgParser (single_mode). Standard options (with and "
+              "(no_log_file_attr, help_if_no_args); a required option in the table makes the bare command exit (required_enforced; the acceptance theorems assume none); the single-command ArgParser (single_mode). Standard options (with and "
               "without _no_log) and the first-argument test are regenerated from ak/cli_tools.py on every run. model = code by a "
               "differential run (construction outcome, full namespace or SystemExit code per argv, the caller's list after the "
               "call) and an oracle that computes ancestors from the declarations independently and states acceptance/rejection for exact option strings, -xyz clusters, --opt=value, '--' and words (declarations with plain ASCII blanks around parent names included; every option string judged separately, also when several options store into one attribute; no claim where an abbreviation is involved, about what --no-color does to `color`, about the caller's list, about the single-command parser).")
